@@ -1,5 +1,194 @@
 import NimaVerif.Lemmas.Trivia
-/-! # C06 — trivia-algebra theorems (being proved; see Lemmas/Trivia.lean). -/
+/-!
+# C06 — rebuilt text is a fixed point (trivia algebra)
+
+The gap-level heart of the fixed-point property: classifying a gap, rendering the classification and
+classifying the rendered text again gives the same classification (and therefore the same text on
+the second pass), for every gap text; the same for the trivia collected from a gap
+(`append_gap_trivia` ∘ `format_trivia`) and for comment tokens (`Comment.from_cst` ∘ `rebuild`).
+Theorems about `Model/Trivia.lean`; SPEC notions in `Model/TriviaSpec.lean`. The per-construct
+renderers are observed by the harness, not modelled.
+-/
 namespace Nima.C06
-theorem formatTrivia_nil (i : Nat) : formatTrivia [] i = [] := rfl
+
+/-! ## Layout classification is idempotent -/
+
+/-- the classification a rendered separator has: indentation made explicit -/
+def Layout.normalize (l : Layout) (i : Nat) : Layout :=
+  if l.onNewline then { onNewline := true, blankLine := l.blankLine, indent := some (l.indent.getD i) } else {}
+
+/-- For every layout value: re-classifying the separator rendered from it gives the layout with the
+    indentation default filled in (and nothing else changed). -/
+theorem fromGap_separator (l : Layout) (i : Nat) :
+    Layout.fromGap (separatorFromLayout l i) = Layout.normalize l i := by
+  unfold separatorFromLayout Layout.normalize
+  cases l.onNewline
+  · rfl
+  · cases l.blankLine
+    · simp only [Bool.not_true, Bool.false_eq_true, if_false, if_true]
+      exact fromGap_nl_spaces _
+    · simp only [Bool.not_true, Bool.false_eq_true, if_false, if_true]
+      exact fromGap_nlnl_spaces _
+
+/-- For layouts that come from a gap — every layout the parser produces — the classification is a
+    fixed point outright, whatever the gap text and the indentation default. -/
+theorem fromGap_separator_idem (g : Text) (i : Nat) :
+    Layout.fromGap (separatorFromLayout (Layout.fromGap g) i) = Layout.fromGap g := by
+  rw [fromGap_separator]
+  unfold Layout.normalize Layout.fromGap
+  cases containsNL g <;> rfl
+
+/-- Second pass = first pass: the separator rendered from the re-classified separator is the
+    separator, byte for byte, for every gap and whatever the indentation defaults of both passes. -/
+theorem separator_second_pass (g : Text) (i j : Nat) :
+    separatorFromLayout (Layout.fromGap (separatorFromLayout (Layout.fromGap g) i)) j
+      = separatorFromLayout (Layout.fromGap g) i := by
+  rw [fromGap_separator_idem]
+  unfold separatorFromLayout Layout.fromGap
+  cases containsNL g <;> rfl
+
+/-- `Layout.from_gap` only ever produces layouts with an explicit indentation on a new line and
+    nothing at all otherwise. -/
+theorem fromGap_wellformed (g : Text) :
+    (Layout.fromGap g).onNewline = containsNL g ∧
+    (containsNL g = false → Layout.fromGap g = {}) ∧
+    (containsNL g = true → (Layout.fromGap g).indent = some (indentFromGap g)) := by
+  unfold Layout.fromGap
+  cases containsNL g <;> simp
+
+/-! ## Trivia collected from a gap -/
+
+/-- the text a multi-line container writes between two items whose `before` list is `ts`:
+    the joining line break, the rendered trivia, the indentation of the next item -/
+def gapText (ts : List Trivia) (i : Nat) : Text := '\n' :: formatTrivia ts i ++ spaces i
+
+theorem gapText_emptyLine (i : Nat) : gapText [.emptyLine] i = '\n' :: '\n' :: spaces i := rfl
+theorem gapText_linebreak (i : Nat) : gapText [.linebreak] i = '\n' :: spaces i := rfl
+theorem gapText_nil (i : Nat) : gapText [] i = '\n' :: spaces i := rfl
+
+/-- `append_gap_trivia` on a gap that contains a line break: classify, render between two items,
+    classify again — the same markers are appended (both `include_linebreak` settings, any list
+    appended to, any gap text). `parse_delimited_sequence` uses the byte-offset variant, which is the
+    same function by `C18.empty_line_impls_agree`. -/
+theorem appendGapTrivia_idem (ts : List Trivia) (g : Text) (i : Nat) (incl1 incl2 : Bool)
+    (h : containsNL g = true) :
+    appendGapTrivia ts (gapText (appendGapTrivia [] g incl1) i) incl2 = appendGapTrivia ts g incl2 := by
+  unfold appendGapTrivia
+  cases hb : gapHasEmptyLine g
+  · simp only [Bool.false_eq_true, if_false, h, Bool.and_true]
+    have e : gapText (if incl1 = true then [] ++ [Trivia.linebreak] else []) i = '\n' :: spaces i := by
+      cases incl1 <;> rfl
+    rw [e, gapHasEmptyLine_nl_spaces]
+    simp [containsNL_cons]
+  · simp only [if_true, List.nil_append, gapText_emptyLine, gapHasEmptyLine_nlnl_spaces]
+
+/-- A gap without a line break (two items on one line) contributes no marker; once the container
+    is written one item per line the gap is classified as a plain line break … -/
+theorem appendGapTrivia_inline_gap (ts : List Trivia) (g : Text) (i : Nat) (incl : Bool)
+    (h : containsNL g = false) :
+    appendGapTrivia ts g incl = ts ∧
+    appendGapTrivia ts (gapText (appendGapTrivia [] g incl) i) true = ts ++ [.linebreak] := by
+  have h1 : gapHasEmptyLine g = false := by
+    unfold gapHasEmptyLine; simp [h]
+  have h2 : ∀ ts', appendGapTrivia ts' g incl = ts' := by
+    intro ts'; unfold appendGapTrivia; simp [h1, h]
+  refine ⟨h2 ts, ?_⟩
+  rw [h2 [], gapText_nil]
+  unfold appendGapTrivia
+  simp [gapHasEmptyLine_nl_spaces, containsNL_cons]
+
+/-- … which renders to the same text: for EVERY gap the rendered gap text is a fixed point of
+    classify-and-render. -/
+theorem gapText_fixed_point (g : Text) (i : Nat) :
+    gapText (appendGapTrivia [] (gapText (appendGapTrivia [] g) i)) i = gapText (appendGapTrivia [] g) i := by
+  cases h : containsNL g
+  · rw [(appendGapTrivia_inline_gap [] g i true h).2, (appendGapTrivia_inline_gap [] g i true h).1]
+    rfl
+  · rw [appendGapTrivia_idem [] g i true true h]
+
+/-- A `before` list as the sequence parser builds it — gap, own-line comment, gap — renders to
+    canonical gap texts around the comment token, so that `appendGapTrivia_idem` and
+    `block_comment_idem` / `line_comment_idem` apply to each part of the rendered text. -/
+theorem before_list_rendering (g1 g2 : Text) (c : Comment) (i : Nat) (hc : c.inline = false) :
+    gapText (appendGapTrivia [] g1 ++ [.comment c] ++ appendGapTrivia [] g2) i =
+      gapText (appendGapTrivia [] g1) i ++ c.token i ++ gapText (appendGapTrivia [] g2) i := by
+  have hcf : ∀ g, CommaFree (appendGapTrivia [] g) := by
+    intro g; unfold appendGapTrivia; split
+    · decide
+    · split <;> decide
+  have hall : CommaFree (appendGapTrivia [] g1 ++ [.comment c] ++ appendGapTrivia [] g2) := by
+    rw [commaFree_append, commaFree_append]
+    exact ⟨⟨hcf g1, by simp [CommaFree]⟩, hcf g2⟩
+  unfold gapText
+  rw [Nima.formatTrivia_append _ _ i hall, Nima.formatTrivia_append _ _ i (commaFree_append.mp hall).1,
+    formatTrivia_eq_flatMap [.comment c] i (by simp [CommaFree])]
+  simp [itemText, rebuild_eq_token, Comment.effIndent, hc]
+
+/-! ## Comment normalisation is idempotent (shared with C03) -/
+
+/-- Block comments, every token text after `/*`, every column and indentation: the rendered token is
+    read back (at the column it is written at) as the same comment, hence re-rendered identically. -/
+theorem block_comment_fixed_point (c1 i : Nat) (t : Text) (h : startsWith ['/', '*'] t = true) :
+    (Comment.fromText i ((Comment.fromText c1 t).token i)).token i = (Comment.fromText c1 t).token i := by
+  rw [block_token_fixed c1 i t h]
+
+/-- Line comments: rendered text is stable from the first pass on (`# ` included). -/
+theorem line_comment_fixed_point (c1 c2 : Nat) (r : Text) (hnl : containsNL r = false) :
+    (Comment.fromText c2 ((Comment.fromText c1 ('#' :: r)).rebuild 0)).rebuild 0
+      = (Comment.fromText c1 ('#' :: r)).rebuild 0 := by
+  rw [line_comment_rebuild c1 0 r hnl]
+  by_cases h : r = [' ']
+  · subst h
+    simp only [if_true, spaces_zero, List.nil_append]
+    rw [line_comment_rebuild c2 0 [] rfl]; rfl
+  · simp only [h, if_false, spaces_zero, List.nil_append]
+    rw [fromText_hash_col c2 c1 r, line_comment_rebuild c1 0 r hnl]; simp [h]
+
+/-- Full statement for comments rendered inline (false): an inline comment is rendered with
+    indentation 0 while its token sits at some column `col > 0` after code, so the second pass reads
+    the continuation lines relative to another column. -/
+def inline_block_fixed_point_full : Prop :=
+  ∀ (col : Nat) (t : Text), startsWith ['/', '*'] t = true →
+    (Comment.fromText col ((Comment.fromText col t).token 0)).token 0 = (Comment.fromText col t).token 0
+
+/-- `x = 1; /* x⏎␣×14 y */`: first pass re-indents the continuation line to 7 spaces, the second
+    pass (token again at column 7) strips them: the text changes on every one of the first two
+    passes. A drift of inline multi-line block comments whose continuation lines are indented by at
+    least twice the token's column. -/
+theorem cex_inline_multiline_block_drift : ¬ inline_block_fixed_point_full := by
+  intro h
+  have := h 7 "/* x\n              y */".toList rfl
+  revert this; decide
+
+/-- Partial: the inline rendering is a fixed point when the token starts in column 0 or the comment
+    is a single-line one (decidable side condition). -/
+theorem inline_block_fixed_point_partial (col : Nat) (t : Text) (h : startsWith ['/', '*'] t = true)
+    (hs : col = 0 ∨ containsNL (blockInner t) = false) :
+    (Comment.fromText col ((Comment.fromText col t).token 0)).token 0 = (Comment.fromText col t).token 0 := by
+  rcases hs with rfl | hs
+  · rw [block_token_fixed 0 0 t h]
+  · have : Comment.fromText col ((Comment.fromText col t).token 0) = Comment.fromText col t := by
+      rw [fromText_block col t h]
+      simp only [hs, Bool.false_eq_true, if_false]
+      have hx : containsNL (strip (blockInner t)) = false := containsNL_of_sublist (stripBy_sublist _ _) hs
+      have htok : ({ text := strip (blockInner t), kind := .block (blockDoc t) none } : Comment).token 0 =
+          blockOpening (blockDoc t) ++ [' '] ++ strip (blockInner t) ++ [' ', '*', '/'] := by
+        simp [Comment.token, hx, blockOpening]
+      rw [htok]
+      exact fromText_single_block col (blockDoc t) _ (stripBy_stripped _ _) hx
+    rw [this]
+
+/-! ## Examples (non-vacuity) -/
+
+def hostileGap : Text := "\t \r\n\n   ".toList
+
+example : Layout.fromGap (separatorFromLayout (Layout.fromGap hostileGap) 2) = Layout.fromGap hostileGap := by decide
+example : appendGapTrivia [] hostileGap = [.emptyLine] := by decide
+example : gapText (appendGapTrivia [] hostileGap) 2 = "\n\n  ".toList := by decide
+example : appendGapTrivia [] (gapText (appendGapTrivia [] hostileGap) 2) = [.emptyLine] := by decide
+example : gapText (appendGapTrivia [] " \t".toList ++ [.comment { text := "c".toList }] ++ appendGapTrivia [] "\n\n\n".toList) 2
+    = "\n  # c\n\n  ".toList := by decide
+example : (Comment.fromText 2 "/* a\n       b\n  */".toList).token 2 = "/* a\n       b\n  */".toList := by decide
+example : (Comment.fromText 7 "/* x\n          y */".toList).token 0 = "/* x\n   y */".toList := by decide
+
 end Nima.C06
